@@ -14,6 +14,9 @@ def affinity_scenarios(tier):
     ch = {s["name"]: s for s in corpus.child_family(tier)}
     base = [seq["seq-two-exec-one-machine"], seq["seq-retry-ok"], seq["seq-async-child"], ok["par-2x1"], ok["map-n2-mc1"], ch["child-sync-ok"], ch["token-success"], ch["child-sync-in-parallel"], ch["child-sdk-express-ok"], ch["child-sync2-ok"],
             seq["seq-unroutable-beside-blocked"]]
+    # acknowledgements of what is dropped (poison events) while another execution's deliveries are outstanding on the same channel
+    by = {s["name"]: s for s in corpus.bystander_family(tier)}
+    base += [by["by+poison-not-json"], by["by+poison-no-context"]] + ([by["by+poison-unknown-machine"], by["by+poison-json-array"]] if tier != "quick" else [])
     if tier != "quick":
         base += [seq["seq-wait-and-task"], seq["seq-catch"], seq["seq-timeout"], seq["seq-express"], ok["par-2x2"], ok["map-n2-mc0"], ok["par-in-map"], ok["par-invoke"],
                  ch["child-sync-fails-caught"], ch["child-sync-in-map"], ch["token-failure"], ch["token-duplicate"], ch["child-sdk-express-fails"], ch["token-rpc-reply-before-callback"]]
